@@ -84,7 +84,8 @@ def merge(total, r):
             tv = total.setdefault('violations', [])
             if len(tv) < MAX_VIOLATIONS_KEPT:
                 tv.extend(v[:MAX_VIOLATIONS_KEPT - len(tv)])
-            total['n_violations'] = total.get('n_violations', 0) + len(v)
+            if 'n_violations' not in r:
+                total['n_violations'] = total.get('n_violations', 0) + len(v)
         elif k == 'samples':
             ts = total.setdefault('samples', [])
             if len(ts) < 6:
@@ -303,7 +304,7 @@ def main(argv):
             cov[k] = v
     ev = dict(property_id=pid, tier=tier, seed=seed, level='model_checking', coverage=cov,
               assumptions=plan.get('assumptions', []), wall_s=round(time.time() - t0, 2),
-              violations=len([1 for v in viols if not match_known(pid, v, known)]) if n_viol_total <= len(viols) else n_viol_total)
+              violations=len(new) + max(0, n_viol_total - len(viols)))
     os.makedirs(os.path.join(VERIF, 'evidence'), exist_ok=True)
     evpath = os.path.join(VERIF, 'evidence', pid + '.json')
     if os.environ.get('VERIF_NO_EVIDENCE'):      # mutation runs on a scratch copy must not overwrite evidence
